@@ -40,7 +40,7 @@ def build(policy):
     leaf.create_port(name="p", pins=1)
     da = tagit(la.create_definition(name="a"), "v")
     tagit(la.create_definition(name="A"), "v")
-    tagit(la.create_definition(name="ab"), "w")
+    ab1 = tagit(la.create_definition(name="ab"), "w")
     la.create_definition()
     tagit(lA.create_definition(name="a"), "v").create_port(name="a", pins=1)
     for nm_, kv in (("a", "v"), ("A", "v"), ("ab", "w"), (None, "v"), ("r[0]", "w"), ("r0", "v")):
@@ -61,6 +61,10 @@ def build(policy):
             # a history: one of the two naming keys was popped again (the other must stay findable)
             for el in (p, c, x):
                 el.pop("EDIF.identifier" if nm_ == "A" else ".NAME")
+    # two different cells with one name (in two libraries) instanced side by side
+    ab2 = tagit(lab.create_definition(name="ab"), "w")
+    tagit(da.create_child(name="zab1", reference=ab1), "w")
+    tagit(da.create_child(name="zab2", reference=ab2), "w")
     # a one-bit port / cable that is an array based at 3: its only bit is named sel[3]
     sp = da.create_port(name="sel", pins=1)
     sc = da.create_cable(name="sel", wires=1)
@@ -214,6 +218,22 @@ def worker(case):
     nq = 0
     nontrivial = 0
     tagbase = "%s(%s)" % (fname, rname)
+    # the unfiltered result itself, where the structure says what it is (the patterns are judged against it below)
+    da_ = h["da"]
+    plain = {("get_definitions", "definition"): lambda: [x.reference for x in da_.children],
+             ("get_instances", "definition"): lambda: list(da_.children),
+             ("get_ports", "definition"): lambda: list(da_.ports),
+             ("get_cables", "definition"): lambda: list(da_.cables),
+             ("get_definitions", "library"): lambda: list(h["la"].definitions),
+             ("get_definitions", "netlist"): lambda: [d for l in n.libraries for d in l.definitions],
+             ("get_libraries", "netlist"): lambda: list(n.libraries),
+             ("get_definitions", "libraries"): lambda: list(h["la"].definitions) + list(h["lA"].definitions)}.get((fname, rname))
+    if plain is not None:
+        nq += 1
+        got0 = list(fn(root))
+        named = lambda xs: sorted(set(id(x) for x in xs if ".NAME" in x))   # (whether a nameless element is listed is not fixed)
+        if named(got0) != named(plain()) or len(got0) != len(set(map(id, got0))):
+            probs.append(("unfiltered-result-wrong:%s" % tagbase, "returned %d element(s), %d distinct; the structure holds %d" % (len(got0), len(set(map(id, got0))), len(set(map(id, plain()))))))
     for sel in selections:
         for rec in ((False, True) if has_rec else (None,)):
             kw = {}
@@ -264,7 +284,12 @@ def worker(case):
                 for v in [x for x in vals if x][-2:]:
                     # an exact name before / after a wildcard that covers it, and the same exact name twice
                     multi += [(v, v[:1] + "*"), (v[:1] + "*", v), (v, v), ("*", v)]
-                regs = sorted(set([re.escape(v) for v in vals[:4] if v] + ["a.*", "[aA]b?", ".*", "("]))
+                # (class escapes in upper case: folding the *pattern* to lower case would turn them into their opposites)
+                # a dozen patterns at once (exact values, as they are and in the other letter case, padded with strangers)
+                nonempty = [x for x in vals if x]
+                multi += [tuple((nonempty + ["zz%d" % i for i in range(12)])[:12]),
+                          tuple(([x.swapcase() for x in nonempty] + ["zz%d" % i for i in range(12)])[:12])]
+                regs = sorted(set([re.escape(v) for v in vals[:4] if v] + ["a.*", "[aA]b?", ".*", "(", r"\D+", r"a\D?", r"\S\S", r"[A-Z]\W?\w*", r"\w+\W\d\W"]))
                 for is_case in (True, False):
                     for is_re in (False, True):
                         plist = [(p,) for p in (regs if is_re else single)] + ([] if is_re else multi)
@@ -303,6 +328,18 @@ def worker(case):
                             feat = "%s:%s:%s%s" % (key, kindp, "case" if is_case else "nocase", ":multi" if len(pt) > 1 else "")
                             if len(G) != len(set(G)):
                                 probs.append(("element-returned-twice:%s:%s" % (fname, feat), "%s %r %r" % (rname, arg, kk)))
+                            if len(pt) > 1 and not is_re:
+                                # several patterns give the union of what each of them gives alone
+                                try:
+                                    alone = set()
+                                    for p1 in dict.fromkeys(pt):
+                                        nq += 1
+                                        alone |= set(ident(x) for x in fn(root, p1, **kk))
+                                    if alone != set(G):
+                                        probs.append(("pattern-list-is-not-the-union:%s:%s:%s" % (fname, feat, policy),
+                                                      "%s(%s, %r, %r) returned %d element(s), the patterns one by one %d" % (fname, rname, arg, kk, len(set(G)), len(alone))))
+                                except Exception as ex:
+                                    probs.append(("query-raised:%s:%s" % (tagbase, type(ex).__name__), "single pattern of %r %r" % (arg, kk)))
                             if strict <= set(G) <= set(want):
                                 if want:
                                     nontrivial += 1
